@@ -176,6 +176,15 @@ def import_closure(prop):
     return sorted(seen.values())
 
 
+def closure_modules(prop):
+    """module names of the project files in the import closure of the property's theorem files"""
+    out = []
+    for path in import_closure(prop):
+        rel = os.path.relpath(path, LEAN)
+        out.append(rel[:-5].replace(os.sep, '.'))
+    return sorted(out)
+
+
 def forbidden_tokens(prop=None):
     """Forbidden constructs outside comments, per file (files in the import closure of the property's theorems)."""
     hits = []
